@@ -27,8 +27,9 @@ HasF(r, f) == f \in DOMAIN r
 StOK(hf, st) ==
     IF hf.exp = "wrath"
     THEN /\ st.S = hf.st[1] /\ st.i = hf.st[2] /\ st.j = hf.st[3]
-         /\ (HasF(st, "stash") => st.stash = hf.stash)
     ELSE st.key = hf.key /\ st.i = hf.st.i /\ st.p = hf.st.p
+\* the 4 parked bytes of the wrath client decoder (only meaningful after an attempt that asked for a fifth byte)
+StashOK(hf, st) == HasF(st, "stash") => st.stash = hf.stash
 \* two logged states are the same
 SameSt(a, b) == a = b
 
@@ -48,7 +49,7 @@ OwnSeed(e) == IF e.via = "new" /\ DrawOK(e, 1, SiteOf(e.exp), 4) THEN e.draws[1]
 TrWorldClient ==
     /\ IsEv("WorldClient")
     /\ LET e == E IN
-       IF ImplPanic(e) THEN UNCHANGED tvars /\ Done(<< <<"C14.total", FALSE>> >>, {"WorldClient"})
+       IF ImplPanic(e) THEN UNCHANGED tvars /\ DoneK(<< <<"C14.total", FALSE>> >>, {"WorldClient"}, TRUE)
        ELSE LET cseed == OwnSeed(e) IN
             /\ WorldClient(e.he, e.hd, e.exp, Text(e.user), e.K, cseed, e.sseed)
             /\ Done(<< <<"C06.clientProof", e.res.proof = hout'.proof>>,
@@ -61,11 +62,11 @@ TrWorldClient ==
 TrWorldServer ==
     /\ IsEv("WorldServer")
     /\ LET e == E IN
-       IF ImplPanic(e) THEN UNCHANGED tvars /\ Done(<< <<"C14.total", FALSE>> >>, {"WorldServer"})
+       IF ImplPanic(e) THEN UNCHANGED tvars /\ DoneK(<< <<"C14.total", FALSE>> >>, {"WorldServer"}, TRUE)
        ELSE LET sseed == OwnSeed(e)
                 ok == e.res.kind = "ok" IN
             /\ WorldServer(e.he, e.hd, e.exp, Text(e.user), e.K, e.proof, sseed, e.cseed)
-            /\ Done(<< <<"C06.iff", ok = (hout'.kind = "ok")>>,
+            /\ DoneK(<< <<"C06.iff", ok = (hout'.kind = "ok")>>,
                        <<"C06.payload", (~ok /\ hout'.kind = "err") =>
                             (e.res.client = e.proof /\ e.res.server = hout'.server)>>,
                        <<"C06.seedAccessor", e.res.seed = sseed>>,
@@ -75,14 +76,15 @@ TrWorldServer ==
                        << PC(e.exp) \o ".init", (ok /\ hout'.kind = "ok") =>
                             (StOK(half'[e.he], e.res.est) /\ StOK(half'[e.hd], e.res.dst))>> >>,
                     {"WorldServer", "WorldServer." \o e.exp} \cup
-                    (IF hout'.kind = "ok" THEN {"WorldServer.accept"} ELSE {"WorldServer.reject"}))
+                    (IF hout'.kind = "ok" THEN {"WorldServer.accept"} ELSE {"WorldServer.reject"}),
+                    e.res.kind # hout'.kind)
 
 TrCall ==
     /\ IsEv("Call")
     /\ LET e == E
            hf == half[e.h]
            p == PC(hf.exp) IN
-       IF ImplPanic(e) THEN UNCHANGED tvars /\ Done(<< <<"C14.total", FALSE>> >>, {"Call"})
+       IF ImplPanic(e) THEN UNCHANGED tvars /\ DoneK(<< <<"C14.total", FALSE>> >>, {"Call"}, TRUE)
        ELSE /\ Call(e.h, e.data)
             /\ Done(<< << p \o ".bytes", e.res.out = hout'.out>>,
                        << p \o ".state", StOK(half'[e.h], e.st)>>,
@@ -99,7 +101,7 @@ TrEncHdr ==
     /\ LET e == E
            hf == half[e.h]
            p == PC(hf.exp) IN
-       IF ImplPanic(e) THEN UNCHANGED tvars /\ Done(<< <<"C14.total", FALSE>> >>, {"EncHdr"})
+       IF ImplPanic(e) THEN UNCHANGED tvars /\ DoneK(<< <<"C14.total", FALSE>> >>, {"EncHdr"}, TRUE)
        ELSE /\ EncHeader(e.h, e.kind, e.size, e.opcode)
             /\ Done(<< <<"C11.wire", e.wire = hout'.wire>>,
                        <<"C11.agree", RawAgree(e)>>,
@@ -120,7 +122,7 @@ TrDecHdr ==
     /\ LET e == E
            hf == half[e.h]
            p == PC(hf.exp) IN
-       IF ImplPanic(e) THEN UNCHANGED tvars /\ Done(<< <<"C14.total", FALSE>> >>, {"DecHdr"})
+       IF ImplPanic(e) THEN UNCHANGED tvars /\ DoneK(<< <<"C14.total", FALSE>> >>, {"DecHdr"}, TRUE)
        ELSE /\ DecHeader(e.h, e.kind, e.bytes)
             /\ Done(<< <<"C11.agree", HasF(e.raw, "out") =>
                             (e.st = e.raw.st /\ e.res.header =
@@ -135,7 +137,7 @@ SentSrv(e, hdr) == HasF(e.sent, "size") => (hdr.size = e.sent.size /\ U32LEsmall
 TrWrathAttempt ==
     /\ IsEv("WrathAttempt")
     /\ LET e == E IN
-       IF ImplPanic(e) THEN UNCHANGED tvars /\ Done(<< <<"C14.total", FALSE>> >>, {"WrathAttempt"})
+       IF ImplPanic(e) THEN UNCHANGED tvars /\ DoneK(<< <<"C14.total", FALSE>> >>, {"WrathAttempt"}, TRUE)
        ELSE /\ WrathAttemptHdr(e.h, e.bytes)
             /\ Done(<< <<"C10.variant", e.res.kind = hout'.kind>>,
                        <<"C10.marker", HasF(e.raw, "out") => ((e.res.kind = "need5") = Marker(e.raw.out[1]))>>,
@@ -144,13 +146,14 @@ TrWrathAttempt ==
                        <<"C10.header", (e.res.kind = "ok" /\ hout'.kind = "ok") => e.res.header = hout'.header>>,
                        <<"C11.agree", HasF(e.raw, "out") =>
                             (e.st.S = e.raw.st.S /\ e.st.i = e.raw.st.i /\ e.st.j = e.raw.st.j)>>,
+                       <<"C10.stash", hout'.kind = "need5" => StashOK(half'[e.h], e.st)>>,
                        <<"C09.state", StOK(half'[e.h], e.st)>> >>,
                     {"WrathAttempt", "via." \o e.via} \cup (IF hout'.kind = "need5" THEN {"WrathAttempt.need5"} ELSE {"WrathAttempt.short"}))
 
 TrWrathComplete ==
     /\ IsEv("WrathComplete")
     /\ LET e == E IN
-       IF ImplPanic(e) THEN UNCHANGED tvars /\ Done(<< <<"C14.total", FALSE>> >>, {"WrathComplete"})
+       IF ImplPanic(e) THEN UNCHANGED tvars /\ DoneK(<< <<"C14.total", FALSE>> >>, {"WrathComplete"}, TRUE)
        ELSE /\ WrathCompleteHdr(e.h, e.byte)
             /\ Done(<< <<"C10.roundtrip", SentSrv(e, e.res.header)>>,
                        <<"C10.header", e.res.header = hout'.header>>,
@@ -163,7 +166,7 @@ TrReadHdr ==
            hf == half[e.h]
            p == PC(hf.exp)
            wrathSrv == hf.exp = "wrath" /\ e.kind = "server" IN
-       IF ImplPanic(e) THEN UNCHANGED tvars /\ Done(<< <<"C14.total", FALSE>> >>, {"ReadHdr"})
+       IF ImplPanic(e) THEN UNCHANGED tvars /\ DoneK(<< <<"C14.total", FALSE>> >>, {"ReadHdr"}, TRUE)
        ELSE /\ (IF wrathSrv THEN WrathReadHeader(e.h, e.script) ELSE ReadHeader(e.h, e.kind, e.script))
             /\ LET pending == hout'.kind = "err" /\ HasF(hout', "pending") IN
                Done(<< <<"C11.readResult", e.res.kind = hout'.kind>>,
@@ -172,6 +175,8 @@ TrReadHdr ==
                        <<"C11.pendingState", pending => (e.st = e.afterAttempt)>>,
                        <<"C11.roundtrip", (e.res.kind = "ok" /\ hout'.kind = "ok") => SentOK(e, e.res.header)>>,
                        <<"C10.roundtrip", (wrathSrv /\ e.res.kind = "ok" /\ hout'.kind = "ok") => SentSrv(e, e.res.header)>>,
+                       <<"C10.readResult", wrathSrv => e.res.kind = hout'.kind>>,
+                       <<"C10.consumedExactly", (wrathSrv /\ hout'.kind = "ok") => e.unread = 0>>,
                        << p \o ".bytes", (e.res.kind = "ok" /\ hout'.kind = "ok") => e.res.header = hout'.header>>,
                        << p \o ".state", StOK(half'[e.h], e.st)>> >>,
                     {"ReadHdr", "ReadHdr." \o hf.exp \o "." \o e.kind, "via." \o e.via}
@@ -185,7 +190,7 @@ TrWriteHdr ==
     /\ LET e == E
            hf == half[e.h]
            p == PC(hf.exp) IN
-       IF ImplPanic(e) THEN UNCHANGED tvars /\ Done(<< <<"C14.total", FALSE>> >>, {"WriteHdr"})
+       IF ImplPanic(e) THEN UNCHANGED tvars /\ DoneK(<< <<"C14.total", FALSE>> >>, {"WriteHdr"}, TRUE)
        ELSE /\ WriteHeader(e.h, e.kind, e.size, e.opcode, e.script)
             /\ Done(<< <<"C11.writeResult", e.res.kind = hout'.kind>>,
                        <<"C11.errorKind", (e.res.kind = "err" /\ hout'.kind = "err") => e.res.io = hout'.io>>,
@@ -235,7 +240,9 @@ TrStateSweep ==
            p == PC(e.exp) IN
        /\ UNCHANGED tvars
        /\ DonePure(<< << p \o ".key", e.st.key = key>>,
+                      << p \o ".stateRange", e.st.i \in 0..(Len(key) - 1) /\ e.st.p \in 0..255>>,
                       << p \o ".transition",
+                         (e.st.i \in 0..(Len(key) - 1) /\ e.st.p \in 0..255) =>
                          \A x \in 0..255 :
                             LET s == IF e.dir = "enc" THEN EncStep(key, st, x) ELSE DecStep(key, st, x)
                             IN e.out[x + 1] = s.o /\ e.ni[x + 1] = s.i /\ e.np[x + 1] = s.p>> >>,
